@@ -157,6 +157,19 @@ def oblige_equal(ctx, name, a, b, kind='ensures'):
         else:
             ctx.oblige(name, S.eq(a, b), kind)
         return
+    if isinstance(a, Seq) or isinstance(b, Seq):
+        def as_seq(v):
+            if isinstance(v, Seq):
+                return v
+            items = list(v.items) if isinstance(v, PyList) else list(v)
+            from .values import select
+            return Seq(len(items), lambda i, items=items: select(items, i) if items else 0)
+        sa, sb = as_seq(a), as_seq(b)
+        ctx.oblige(name + '.len', S.eq(sa.length, sb.length), kind)
+        i = ctx.fresh_int('%s.i' % name.split('::')[-1])
+        with_hyp(ctx, [S.z(S.eq(sa.length, sb.length)), i >= 0, S.z(S.lt(i, sa.length))],
+                 lambda: oblige_equal(ctx, name + '.elem', sa.elem(i), sb.elem(i), kind))
+        return
     if isinstance(a, (tuple, PyList)) and isinstance(b, (tuple, PyList)):
         xs = a.items if isinstance(a, PyList) else list(a)
         ys = b.items if isinstance(b, PyList) else list(b)
